@@ -230,6 +230,7 @@ static enum DeviceStatusCode
 c_shape(const struct Camera* c, struct ImageShape* s)
 {
     *s = containerof(c, struct MCam, cam)->shape;
+    vs_yield("cam_shape"); // (the source's loop asks for the shape every round: a loop that gets no queue space must stay preemptible)
     return Device_Ok;
 }
 static enum DeviceStatusCode
@@ -668,6 +669,8 @@ run_prog(void)
         } else if (!strcmp(op, "state")) {
             int st = (int)acquire_get_state(rt);
             ev("{\"e\":\"Api\",\"op\":\"state\",\"ph\":\"ret\",\"rc\":0,\"st\":%d}", st);
+        } else if (!strcmp(op, "mark")) {
+            vs_yield("client_mark"); // a scheduling point a `window` line can refer to
         } else if (!strcmp(op, "yield")) {
             int k = atoi(prog[++i]);
             for (int j = 0; j < k; j++)
@@ -765,6 +768,17 @@ main(int argc, char** argv)
             continue;
         if (!strcmp(tok, "seed")) cfg.seed = strtoull(strtok(0, " \t\n"), 0, 10);
         else if (!strcmp(tok, "spurious")) cfg.spurious = atoi(strtok(0, " \t\n"));
+        else if (!strcmp(tok, "window")) {
+            // window LABEL INDEX THREAD STEPS [x]: see vsched.h (x = exclude THREAD instead of running it exclusively)
+            static char wl[64];
+            snprintf(wl, sizeof wl, "%s", strtok(0, " \t\n"));
+            cfg.window_label = wl;
+            cfg.window_index = atoi(strtok(0, " \t\n"));
+            cfg.window_thread = atoi(strtok(0, " \t\n"));
+            cfg.window_steps = atoi(strtok(0, " \t\n"));
+            char* x = strtok(0, " \t\n");
+            cfg.window_exclude = x && x[0] == 'x';
+        }
         else if (!strcmp(tok, "budget")) cfg.budget = cfg.fair_budget = atol(strtok(0, " \t\n"));
         else if (!strcmp(tok, "pct_depth")) cfg.pct_depth = atoi(strtok(0, " \t\n"));
         else if (!strcmp(tok, "pct_len")) cfg.pct_len = atol(strtok(0, " \t\n"));
